@@ -1,6 +1,6 @@
 From Coq Require Import List NArith ZArith Bool.
 From LTV.C15 Require Import ParamsGen.
-From LTV.C15 Require Import Model Proofs ProofsMid ProofsTableA ProofsTableB ProofsTableC ProofsTokens ProofsCounters ProofsReply.
+From LTV.C15 Require Import Model Proofs ProofsMid ProofsTableA ProofsTableB ProofsTableC ProofsTokens ProofsCounters ProofsReply ProofsOwn.
 Import ListNotations.
 Local Open Scope N_scope.
 
@@ -204,3 +204,31 @@ Theorem reply_shape_announce : forall sha s ip rnd m t id h tk, envelope_ok s m 
      (exists e, snd (dgram sha s ip rnd m) = RpErr (Some t) e) /\ fst (dgram sha s ip rnd m) = s).
 Proof. exact reply_announce. Qed.
 Print Assumptions reply_shape_announce.
+
+(* ------------------------------------------------------------------ the own bucket *)
+
+(* only_own_bucket_splits: along every op list from the initial state, a step can make a bucket
+   range [lo, hi] disappear only if it contains the router's own id (ops: ids in replies are
+   20-byte strings, the clock stays below 2^32 - 1 seconds) *)
+Theorem only_own_bucket_splits : forall sha ownid c p t0 ops o, ownid < idspace ->
+  t0 + ticks (ops ++ [o]) < u32 - 1 -> Forall op_ok (ops ++ [o]) ->
+  let s := run sha (init ownid c p t0) ops in
+  forall lo hi, In (lo, hi) (ranges (tb (tab s))) ->
+    In (lo, hi) (ranges (tb (tab (fst (step sha s o))))) \/ (lo <= ownid /\ ownid <= hi).
+Proof. exact only_own_splits_step. Qed.
+Print Assumptions only_own_bucket_splits.
+
+(* none of the internal_error throws of the modelled code is reachable: "router ID ended up in wrong
+   bucket", "find_candidate returned no node", a node missing right after it was added or updated,
+   fuel exhaustion; and the router's bucket pointer always designates the bucket covering the own
+   id, which is the last link of the parent/child chain *)
+Theorem no_internal_error : forall sha ownid c p t0 ops, ownid < idspace ->
+  t0 + ticks ops < u32 - 1 -> Forall op_ok ops ->
+  let s := run sha (init ownid c p t0) ops in
+  err s = false /\ own s = ownid /\ own_in_town ownid (tab s) /\ chain_ok (tab s).
+Proof.
+  intros sha ownid c p t0 ops Ho Nw F s.
+  destruct (run_from_init sha ownid c p t0 ops Ho Nw F) as [E [O [_ [[_ [A1 [A2 _]]] _]]]].
+  fold s in E, O, A1, A2. rewrite O in A1. split; [exact E|split; [exact O|split; [exact A1|exact A2]]].
+Qed.
+Print Assumptions no_internal_error.
